@@ -91,7 +91,12 @@ def impl_hier_compile(case):
         # derived resources whose calculator says "not applicable" (None) for every routine: nothing may change
         kw["derived_resources"] = [{"name": nm, "type": "other", "calculate": (lambda routine, backend: None)}
                                    for nm in case["derived_none"]]
-    res = compile_routine(to_qref(case["routine"]), **kw)
+    doc = to_qref(case["routine"])
+    if case.get("native"):
+        # integer literals handed over as native ints (a port of size 0 is the integer 0, not the text "0")
+        from hier import native_numbers
+        doc = native_numbers(doc)
+    res = compile_routine(doc, **kw)
     tree = walk_compiled(res.routine, flags)
     return {"tree": tree, "inexact": flags["inexact"]}
 
@@ -115,14 +120,15 @@ def _assign_value(v):
     return str(val)
 
 
-def _try_eval(c, assigns, fmap):
+def _try_eval(c, assigns, fmap, fmaps=None):
     from bartiq import evaluate
 
     flags = {"inexact": False}
     try:
         cur = c
-        for step in assigns:
-            cur = evaluate(cur, {k: _assign_value(v) for k, v in step}, functions_map=fmap or None).routine
+        for i, step in enumerate(assigns):
+            fm = fmaps[i] if fmaps is not None else fmap
+            cur = evaluate(cur, {k: _assign_value(v) for k, v in step}, functions_map=fm or None).routine
         return {"ok": True, "tree": walk_compiled(cur, flags), "inexact": flags["inexact"]}
     except BaseException as e:  # noqa: BLE001
         if type(e).__name__ == "CaseTimeout":
@@ -140,7 +146,13 @@ def impl_eval(case):
     fmap = {f: FUN_LIBRARY[impl] for f, impl in case.get("functions", [])}
     out["e1"] = _try_eval(c, [case["assign"]], fmap)
     out["e2"] = _try_eval(c, [case["perm"]], fmap) if case.get("perm") else {"ok": False, "exc": "skip"}
-    out["e3"] = _try_eval(c, case["split"], fmap) if case.get("split") else {"ok": False, "exc": "skip"}
+    if case.get("split"):
+        out["e3"] = _try_eval(c, case["split"], fmap)
+    elif fmap:
+        # the functions supplied in a step of their own: numbers first, then an EMPTY assignment with the functions map
+        out["e3"] = _try_eval(c, [case["assign"], []], None, fmaps=[None, fmap])
+    else:
+        out["e3"] = {"ok": False, "exc": "skip"}
     out["inexact"] = flags["inexact"] or any(out[k].get("inexact") for k in ("e1", "e2", "e3"))
     return out
 
